@@ -41,6 +41,7 @@ func (m *Mutex) Lock() {
 		return
 	}
 	m.held = true
+	vsched.NoteLock(m)
 }
 
 func (m *Mutex) TryLock() bool {
@@ -70,6 +71,7 @@ func (m *Mutex) Unlock() {
 		panic("sync: unlock of unlocked mutex")
 	}
 	m.held = false
+	vsched.NoteUnlock(m)
 }
 
 // RWMutex is a scheduler-aware reader/writer lock.
